@@ -103,6 +103,42 @@ def body_label(ev, g, kind):
     return body
 
 
+SCRIPT_HISTORY = ('import sys, athlib\nev, g, ag = {ev}, {g}, {ag}\npev, pg, pag = {pev}, {pg}, {pag}\n' + hc.FRESH_SRC +
+                  "f = lambda: (athlib.get_specific_event_code(ev, g, ag), athlib.get_implement_weight(ev, g, ag))\n"
+                  "a = fresh(f)\nhere(lambda: (athlib.get_specific_event_code(pev, pg, pag), athlib.get_implement_weight(pev, pg, pag)))\nb = here(f)\n"
+                  "print(ev, g, ag, '-> fresh', a, '; after the same questions for', pev, pg, pag, '->', b)\nsys.exit(0 if a == b else 1)\n")
+
+
+def body_history(ev, g, kind, pev, pg, pkind):
+    """code and weight for one (event, gender, label) after the same two functions answered for another (event, gender, label with symbolic
+    digits of its own) equal the answers obtained once the library state has been put back (module-level lists / dicts of the
+    implement rules must not be changed by a lookup)"""
+    def body(R):
+        impl = sys.modules['athlib.implements']
+        eng = E.cur()
+        ag, _ = label_of(kind)
+        pag, _ = label_of(pkind)
+        inputs = {'ev': ev, 'g': g, 'ag': ag, 'pev': pev, 'pg': pg, 'pag': pag}
+        R.partial = {'inputs': inputs}
+
+        def both(e_, g_, a_):
+            try:
+                return (impl.get_specific_event_code(e_, g_, a_), impl.get_implement_weight(e_, g_, a_))
+            except Exception as e:
+                return ('raises', type(e).__name__)
+        both(pev, pg, pag)
+        r1 = both(ev, g, ag)
+        hc.reset_library_state()
+        r0 = both(ev, g, ag)
+        for x, y in zip(r0, r1):
+            if isinstance(x, SymStr) or isinstance(y, SymStr):
+                eng.check(hc.symstr_eq_term(x, y), 'history')
+            elif x != y:
+                raise hc.PathFail('history', 'fresh %r, after the other lookup %r' % (r0, r1))
+        return {'inputs': inputs, 'observe': []}
+    return body
+
+
 def body_monotone(ev, g):
     def body(R):
         impl = sys.modules['athlib.implements']
@@ -151,6 +187,9 @@ def worker(job):
     try:
         if kind == 'label':
             R.explore(body_label(*job[1:]), 'label %s %s %s' % job[1:])
+        elif kind == 'history':
+            R.scripts = dict(R.scripts, history=SCRIPT_HISTORY)
+            R.explore(body_history(*job[1:]), 'history %s %s %s after %s %s %s' % job[1:])
         elif kind == 'mono':
             R.func = 'athlib.get_implement_weight'
             R.explore(body_monotone(*job[1:]), 'monotone %s %s' % job[1:])
@@ -240,6 +279,11 @@ def run(chk, only=None):
                 jobs.append(('label', ev, g, kind))
         for g in ('M', 'F'):
             jobs.append(('mono', ev, g))
+            og = 'F' if g == 'M' else 'M'
+            oev = THROWS5[(THROWS5.index(ev) + 1) % len(THROWS5)]
+            for kind in ('U', 'V'):
+                for (pev, pg, pkind) in ((ev, og, 'U'), (ev, og, 'V'), (oev, og, 'U'), (ev, g, 'V' if kind == 'U' else 'U')):
+                    jobs.append(('history', ev, g, kind, pev, pg, pkind))
     small = T.templates_of(codes.PAT_EVENT_CODE._real, T.Rule(plus=(1, 2), star=(0, 1), ws=(0,), max_ws=0))
     small = [t for t in small if not (any(d == frozenset('c') for d in t) and any(d == frozenset('m') for d in t))]
     if quick:
